@@ -66,6 +66,10 @@ case "$cmd" in
     # sequential-history cases of C08 are replayed by the enumeration binary
     case "$file" in *C08_seq_*) eng=e1 ;; esac
     build_pkg "$eng" || exit 2
+    if [ "$id" = C16 ]; then
+      export VERIF_UNICODE_REF="$CARGO_TARGET_DIR/unicode_ref.txt"
+      python3 "$ROOT/tools/gen_unicode_ref.py" > "$VERIF_UNICODE_REF" || { echo "MACHINERY-FAILURE: gen_unicode_ref.py failed"; exit 2; }
+    fi
     bin="$CARGO_TARGET_DIR/release/$eng"
     [ "$eng" = e3 ] && bin="${CARGO_TARGET_DIR}-loom/release/e3"
     "$bin" replay "$id" "$file"
